@@ -227,3 +227,15 @@ Theorem C02_glue_rs_matches_model :
   (forall w a b, Glue.I_overflowing_mul w a b = I_overflowing_mul w a b).
 Proof. exact glue_mul_matches_model. Qed.
 Print Assumptions C02_glue_rs_matches_model.
+(* ---- tie to the source: long_mul REGENERATED from /repo/src/buint/mul.rs on every run
+   (Generated/Loops.v, tools/rs2v_loops.py; control-flow vocabulary Model/Imp.v) computes exactly the model's
+   long_mul: with an iteration budget of at least N (for each of the two nested loops) it neither panics
+   nor runs out of budget. ---- *)
+From Bnum.Model Require Import Imp.
+From Bnum.Generated Require Import Loops.
+From Bnum.Proofs Require Import LoopsTieC02.
+Theorem C02_loops_rs_match_model w : 0 < w ->
+  (forall n a b fuel, wf w n a -> wf w n b -> (n <= fuel)%nat ->
+     Loops.long_mul w (Z.of_nat n) fuel a b = Done (long_mul w a b)).
+Proof. exact (loops_C02_match_model w). Qed.
+Print Assumptions C02_loops_rs_match_model.
